@@ -475,7 +475,8 @@ async def _main(world: SchedWorld) -> None:
                             created = await kicker.schedule_by_cron(src, cron, *args, **(sp.get("kwargs") or {}))
                         else:
                             created = await kicker.schedule_by_time(src, make_time(sp["time"]), *args, **(sp.get("kwargs") or {}))
-                        world.rec("op_create", source=op["source"], id=sp["id"], got_id=created.schedule_id)
+                        world.rec("op_create", source=op["source"], id=sp["id"], got_id=created.schedule_id,
+                                  in_source=sum(1 for x in src.items if x.schedule_id == sp["id"]))
                     except Exception as exc:  # noqa: BLE001
                         world.rec("op_create_failed", source=op["source"], id=sp["id"], exc=type(exc).__name__)
                 world.fired("schedule_create")
